@@ -68,6 +68,22 @@ def grid_kwargs(r, mode, grid):
         return emg3d.TensorMesh(hs, origin=org)
     if mode == 'input':
         return {'gridding': 'input', 'gridding_opts': mk()}
+    if r.random() < 0.5:
+        # per-task grids that are translations of one another: identical
+        # widths, different origins (as automatic gridding produces for
+        # sources on a tow line)
+        n = int(gen.choice(r, [8, 10, 12]))
+        h = np.r_[3*base, 1.6*base, np.ones(n)*base*r.uniform(0.7, 1.1),
+                  1.6*base, 3*base]
+        cnt = {'n': 0}
+        shift = float(r.uniform(0.15, 0.45)*base)
+
+        def mk_shifted():
+            cnt['n'] += 1
+            o = -h.sum()/2 + (cnt['n'] % 3 - 1)*shift
+            return emg3d.TensorMesh([h, h, h], origin=(o, -h.sum()/2 + 3.0,
+                                                      -h.sum()/2))
+        return {'gridding': 'dict', 'gridding_opts': 'DICT', '_mk': mk_shifted}
     return {'gridding': 'dict', 'gridding_opts': 'DICT', '_mk': mk}
 
 
